@@ -23,6 +23,7 @@ pub struct Case {
 }
 
 fn exec<D: Doc>(p: &PrepDoc<D>, residue: usize) -> Result<(u64, &'static str, usize), Violation> {
+    crate::ctx::scrub_stack();
     let blocks = blocks_of(&p.schema);
     let what = format!("deserialize_eps::<{}> of a {}-byte stream placed at an address ≡ {} (mod 128)", D::NAME, p.b.len(), residue);
     with_arena(|a| {
